@@ -46,9 +46,30 @@ class VDateTime(_dt.datetime):
         return vnow().replace(tzinfo=None)
 
 
+class VTouchDateTime(VDateTime):
+    """
+    For kopf._core.actions.application only (the touch-dummy value): strictly increasing per call.
+    A real wall clock always moves between two consecutive touches; the virtual one stands still during zero-time
+    computations, which would make two touches write the same value (a no-op write, no event, handling stalls) --
+    an artefact of virtual time, not a behaviour of the code under test.
+    """
+    _last: _dt.datetime | None = None
+
+    @classmethod
+    def now(cls, tz=None):  # type: ignore[override]
+        r = vnow()
+        if VTouchDateTime._last is not None and r <= VTouchDateTime._last:
+            r = VTouchDateTime._last + _dt.timedelta(microseconds=1)
+        VTouchDateTime._last = r
+        return r.astimezone(tz) if tz is not None else r.replace(tzinfo=None)
+
+
 _shim = types.ModuleType('datetime')
 _shim.__dict__.update({k: getattr(_dt, k) for k in dir(_dt) if not k.startswith('__')})
 _shim.datetime = VDateTime  # type: ignore[attr-defined]
+_touch_shim = types.ModuleType('datetime')
+_touch_shim.__dict__.update({k: getattr(_dt, k) for k in dir(_dt) if not k.startswith('__')})
+_touch_shim.datetime = VTouchDateTime  # type: ignore[attr-defined]
 
 _installed = False
 
@@ -64,7 +85,7 @@ def install() -> int:
         except Exception:
             continue
         if getattr(mod, 'datetime', None) is not None:
-            mod.datetime = _shim  # type: ignore[attr-defined]
+            mod.datetime = _touch_shim if name.endswith('.application') else _shim  # type: ignore[attr-defined]
             n += 1
     _installed = True
     return n
@@ -79,6 +100,7 @@ def new_loop(start: float = 0.0) -> asyncio.AbstractEventLoop:
     That would be an artefact of the virtual clock, not of the code under test.
     """
     import math
+    VTouchDateTime._last = None
     loop = looptime.new_event_loop(start=start)
     orig_call_at = loop.call_at
 
